@@ -16,8 +16,6 @@ import (
 	"github.com/prometheus/statsd_exporter/pkg/event"
 	"github.com/prometheus/statsd_exporter/pkg/exporter"
 	"github.com/prometheus/statsd_exporter/pkg/mapper"
-	"github.com/prometheus/statsd_exporter/pkg/mappercache/lru"
-	"github.com/prometheus/statsd_exporter/pkg/mappercache/randomreplacement"
 )
 
 func init() { engines["pipeline"] = enginePipeline }
@@ -193,15 +191,7 @@ func newPipe(flags int, cache string, size int) *pipe {
 	p := &pipe{flags: flags}
 	p.reg = prometheus.NewRegistry()
 	registerBuiltins(p.reg)
-	p.m = &mapper.MetricMapper{Logger: promslog.NewNopLogger()}
-	switch cache {
-	case "lru":
-		c, _ := lru.NewMetricMapperLRUCache(nil, size)
-		p.m.UseCache(c)
-	case "rr":
-		c, _ := randomreplacement.NewMetricMapperRRCache(nil, size)
-		p.m.UseCache(c)
-	}
+	p.m = newMapper(cache, size)
 	p.eventsAct = prometheus.NewCounterVec(prometheus.CounterOpts{Name: "a"}, []string{"action"})
 	p.unmapped = prometheus.NewCounter(prometheus.CounterOpts{Name: "u"})
 	p.errStats = prometheus.NewCounterVec(prometheus.CounterOpts{Name: "e"}, []string{"reason"})
@@ -230,6 +220,21 @@ func (p *pipe) input(l string) (res string) {
 	return "I ok"
 }
 
+// eventNames parses the line with throw-away counters to learn which metric names will be looked up
+func (p *pipe) eventNames(l string) (names []string) {
+	defer func() { recover() }()
+	se := prometheus.NewCounterVec(prometheus.CounterOpts{Name: "x"}, []string{"reason"})
+	c := prometheus.NewCounter(prometheus.CounterOpts{Name: "y"})
+	seen := map[string]bool{}
+	for _, e := range newParser(p.flags).LineToEvents(l, *se, c, c, c, promslog.NewNopLogger()) {
+		if !seen[e.MetricName()] {
+			seen[e.MetricName()] = true
+			names = append(names, e.MetricName())
+		}
+	}
+	return names
+}
+
 func pipelineCase(c string) (res string) {
 	ops := strings.Split(c, " | ")
 	hdr := strings.Fields(ops[0])
@@ -240,16 +245,13 @@ func pipelineCase(c string) (res string) {
 	defer func() { clock.ClockInstance = nil }()
 	p := newPipe(flags, hdr[1], size)
 	var results, oracle []string
-	type cre struct {
-		src string
-		re  interface{ FindStringSubmatchIndex(string) []int }
-	}
+	ctx := &mctx{m: p.m, seenM: map[string]bool{}}
 	floatSeen := map[string]bool{}
 	for oi, op := range ops[1:] {
 		f := strings.Fields(op)
 		switch f[0] {
 		case "L":
-			r, o := loadOp(p.m, f, oi)
+			r, o := ctx.loadOp(f, oi)
 			results = append(results, r)
 			oracle = append(oracle, o...)
 		case "I":
@@ -260,7 +262,9 @@ func pipelineCase(c string) (res string) {
 					oracle = append(oracle, "F:"+tok)
 				}
 			}
-			oracle = append(oracle, regexOracleFor(p.m, f, l)...)
+			for _, name := range p.eventNames(l) {
+				oracle = append(oracle, ctx.matchOracle(name)...)
+			}
 			results = append(results, p.input(l))
 		case "A":
 			ns, _ := strconv.ParseInt(f[1], 10, 64)
